@@ -262,6 +262,16 @@ def demo_F21_nfa_simulate_word_epsilon_cycle():
     return (run is not None and run[0] == ('q0', 'a') and run[-1] == ('q2', ''), str(run))
 
 
+def demo_F23_cfg_print_simple_start_variable():
+    from gambatools.cfg import CFG, Rule, Alternative, Variable, Terminal
+    from gambatools.cfg_algorithms import cfg_print_simple, parse_simple_cfg
+    V = {Variable('S'), Variable('A')}; Sg = {Terminal('a'), Terminal('b')}
+    R = [Rule(Variable('A'), Alternative([Terminal('a')])), Rule(Variable('S'), Alternative([Variable('A'), Terminal('b')]))]
+    G = CFG(V, Sg, R, Variable('S'), Terminal('ε'))
+    G2 = parse_simple_cfg(cfg_print_simple(G))
+    return (G2.S == G.S, 'start variable after print/parse: %s (was %s); text: %r' % (G2.S, G.S, cfg_print_simple(G)))
+
+
 def demo_F22_dfa2regexp_digit_symbols():
     from gambatools.dfa import DFA
     from gambatools.dfa_algorithms import print_dfa
